@@ -56,7 +56,15 @@ def abs_type(type_obj, dialect):
     return [FAM_CODE[m.group(1)], args]
 
 
-def tn(n): return "t%d" % n
+def tn(n): return "t%d" % (n % 100)          # table code = 100 * schema + local name (schema 0: the default schema)
+def sch(n): return None if n < 100 else "s%d" % (n // 100)
+
+
+def tcode(name, schema=None):
+    return un(name, "t") + (0 if not schema else 100 * un(schema, "s"))
+
+
+def tkey(n): return tn(n) if n < 100 else "%s.%s" % (sch(n), tn(n))
 def cn(n): return "c%d" % n
 def kn(n): return "k%d" % n
 def fn(n): return "f%d" % n
@@ -118,11 +126,21 @@ def build_metadata(schema):
                 args.append(sa.UniqueConstraint(*[cn(c) for c in k[2]], name=kn(k[1])))
             else:
                 args.append(sa.Index(kn(k[1]), *[cn(c) for c in k[2]], unique=bool(k[3])))
+        # objects OUTSIDE the model that autogenerate does not look at on SQLite (the model never sees them; the comparison
+        # must be unaffected): named CHECK constraints, expression indexes (func / text)
+        deco = t.get("deco") or {}
+        for name, sqltext in deco.get("checks", []):
+            args.append(sa.CheckConstraint(sqltext, name="ck%d" % name))
+        for name, kind, c in deco.get("eixs", []):
+            expr = sa.func.lower(sa.column(cn(c))) if kind == "func" else sa.text("%s || 'x'" % cn(c))
+            args.append(sa.Index("e%d" % name, expr))
+        for u in t.get("uuqs", []):          # unnamed unique constraints: [handle, [cols]]
+            args.append(sa.UniqueConstraint(*[cn(c) for c in u[1]]))
         for f in t.get("fks", []):
             o = fk_opts(f)
-            args.append(sa.ForeignKeyConstraint([cn(c) for c in f[1]], ["%s.%s" % (tn(f[2]), cn(c)) for c in f[3]], name=fn(f[0]) if fk_named(f) else None,
+            args.append(sa.ForeignKeyConstraint([cn(c) for c in f[1]], ["%s.%s" % (tkey(f[2]), cn(c)) for c in f[3]], name=fn(f[0]) if fk_named(f) else None,
                                                 onupdate=o[0], ondelete=o[1], deferrable=o[2], initially=o[3]))
-        sa.Table(tn(t["name"]), md, *args)
+        sa.Table(tn(t["name"]), md, *args, schema=sch(t["name"]))
     return md
 
 
@@ -158,8 +176,12 @@ def abs_reflected(conn):
         insp.reflect_table(t, include_columns=None)
         cols = [abs_column(c, conn.dialect) for c in t.c]
         cons = []
+        uuqs = []
         for uq in insp.get_unique_constraints(name):
-            cons.append(["uq", un(uq["name"], "k"), [un(c, "c") for c in uq["column_names"]]])
+            if uq["name"] is None:
+                uuqs.append([0, [un(c, "c") for c in uq["column_names"]]])
+            else:
+                cons.append(["uq", un(uq["name"], "k"), [un(c, "c") for c in uq["column_names"]]])
         for ix in insp.get_indexes(name):
             if any(c is None for c in ix["column_names"]):
                 raise AssertionError("expression index")
@@ -174,7 +196,7 @@ def abs_reflected(conn):
                         [o.get("onupdate"), o.get("ondelete"), o.get("deferrable"), o.get("initially")], f["name"] is not None])
         if insp.get_check_constraints(name):
             raise AssertionError("unexpected constraint")
-        out.append({"name": un(name, "t"), "cols": cols, "cons": cons, "fks": fks})
+        out.append({"name": un(name, "t"), "cols": cols, "cons": cons, "fks": fks, "uuqs": uuqs})
     return out
 
 
@@ -231,64 +253,69 @@ def abs_ops(upgrade_ops, dialect, conn_schema=None, meta_schema=None):
                     raise AssertionError("op of another table inside ModifyTableOps")
                 one(o)
         elif isinstance(op, O.CreateTableOp):
-            cols, uqs, fks = [], [], []
+            cols, uqs, fks, uuqs = [], [], [], []
             for el in op.columns:
                 if isinstance(el, sa.Column):
                     cols.append(abs_column(el, dialect))
                 elif isinstance(el, sa.UniqueConstraint):
-                    uqs.append(["uq", un(el.name, "k"), _colnames(list(el.columns))])
+                    if el.name is None:
+                        uuqs.append([0, _colnames(list(el.columns))])
+                    else:
+                        uqs.append(["uq", un(el.name, "k"), _colnames(list(el.columns))])
                 elif isinstance(el, sa.ForeignKeyConstraint):
                     f = abs_fk_of_constraint(el)
                     if not f[5]:
-                        f[0] = handle(meta_schema, un(op.table_name, "t"), f[1], f[2], f[3])
+                        f[0] = handle(meta_schema, tcode(op.table_name, op.schema), f[1], f[2], f[3])
                     fks.append(f)
+                elif isinstance(el, sa.CheckConstraint):
+                    pass        # decoration: a CHECK travels inline with create_table, nothing else ever mentions it
                 elif isinstance(el, sa.PrimaryKeyConstraint):
                     pkc = sorted(_colnames(list(el.columns)))
                     if pkc != sorted(c[0] for c in cols if c[4]):
                         raise AssertionError("primary key constraint does not match column flags")
                 else:
                     raise AssertionError("unexpected element in CreateTableOp: %r" % (el,))
-            if op.schema is not None:
-                raise AssertionError("schema")
-            out.append(["create_table", {"name": un(op.table_name, "t"), "cols": cols, "cons": uqs, "fks": fks}])
+            out.append(["create_table", {"name": tcode(op.table_name, op.schema), "cols": cols, "cons": uqs, "fks": fks, "uuqs": uuqs}])
         elif isinstance(op, O.DropTableOp):
-            out.append(["drop_table", un(op.table_name, "t")])
+            out.append(["drop_table", tcode(op.table_name, op.schema)])
         elif isinstance(op, O.AddColumnOp):
-            out.append(["add_column", un(op.table_name, "t"), abs_column(op.column, dialect)])
+            out.append(["add_column", tcode(op.table_name, op.schema), abs_column(op.column, dialect)])
         elif isinstance(op, O.DropColumnOp):
-            out.append(["drop_column", un(op.table_name, "t"), un(op.column_name, "c")])
+            out.append(["drop_column", tcode(op.table_name, op.schema), un(op.column_name, "c")])
         elif isinstance(op, O.AlterColumnOp):
             if op.modify_name is not None or op.modify_comment is not False:
                 raise AssertionError("unexpected modification in AlterColumnOp")
-            out.append(["alter_column", un(op.table_name, "t"), un(op.column_name, "c"),
+            out.append(["alter_column", tcode(op.table_name, op.schema), un(op.column_name, "c"),
                         bool(op.existing_nullable), abs_type(op.existing_type, dialect), canon_existing_default(op.existing_server_default),
                         None if op.modify_nullable is None else bool(op.modify_nullable),
                         None if op.modify_type is None else abs_type(op.modify_type, dialect),
                         None if op.modify_server_default is False else [abs_default(op.modify_server_default)]])
         elif isinstance(op, O.CreateIndexOp):
-            out.append(["add_cons", un(op.table_name, "t"), ["ix", un(op.index_name, "k"), _colnames(op.columns), bool(op.unique)]])
+            out.append(["add_cons", tcode(op.table_name, op.schema), ["ix", un(op.index_name, "k"), _colnames(op.columns), bool(op.unique)]])
         elif isinstance(op, O.DropIndexOp):
-            out.append(["drop_cons", un(op.table_name, "t"), True, un(op.index_name, "k")])
+            out.append(["drop_cons", tcode(op.table_name, op.schema), True, un(op.index_name, "k")])
+        elif isinstance(op, O.CreateUniqueConstraintOp) and op.constraint_name is None:
+            out.append(["add_uuq", tcode(op.table_name, op.schema), [0, _colnames(op.columns)]])
         elif isinstance(op, O.CreateUniqueConstraintOp):
-            out.append(["add_cons", un(op.table_name, "t"), ["uq", un(op.constraint_name, "k"), _colnames(op.columns)]])
+            out.append(["add_cons", tcode(op.table_name, op.schema), ["uq", un(op.constraint_name, "k"), _colnames(op.columns)]])
         elif isinstance(op, O.CreateForeignKeyOp):
-            if any(op.kw.get(k) for k in ("source_schema", "referent_schema", "match")):
-                raise AssertionError("unexpected foreign key schema / match")
-            lc, rt_, rc = [un(c, "c") for c in op.local_cols], un(op.referent_table, "t"), [un(c, "c") for c in op.remote_cols]
-            out.append(["add_fk", un(op.source_table, "t"), [handle(meta_schema, un(op.source_table, "t"), lc, rt_, rc) if op.constraint_name is None else un(op.constraint_name, "f"), [un(c, "c") for c in op.local_cols],
-                                                             un(op.referent_table, "t"), [un(c, "c") for c in op.remote_cols],
+            if op.kw.get("match"):
+                raise AssertionError("unexpected foreign key match")
+            lc, rt_, rc = [un(c, "c") for c in op.local_cols], tcode(op.referent_table, op.kw.get("referent_schema")), [un(c, "c") for c in op.remote_cols]
+            out.append(["add_fk", tcode(op.source_table, op.kw.get("source_schema")), [handle(meta_schema, tcode(op.source_table, op.kw.get("source_schema")), lc, rt_, rc) if op.constraint_name is None else un(op.constraint_name, "f"), [un(c, "c") for c in op.local_cols],
+                                                             rt_, [un(c, "c") for c in op.remote_cols],
                                                              [op.kw.get("onupdate"), op.kw.get("ondelete"), op.kw.get("deferrable"),
                                                               op.kw.get("initially")], op.constraint_name is not None]])
         elif isinstance(op, O.DropConstraintOp):
             if op.constraint_type == "foreignkey":
                 if op.constraint_name is None:
                     f = abs_fk_of_constraint_any(op.to_constraint())
-                    h = handle(conn_schema, un(op.table_name, "t"), f[1], f[2], f[3])
+                    h = handle(conn_schema, tcode(op.table_name, op.schema), f[1], f[2], f[3])
                 else:
                     h = un(op.constraint_name, "f")
-                out.append(["drop_fk", un(op.table_name, "t"), h, op.constraint_name is not None])
+                out.append(["drop_fk", tcode(op.table_name, op.schema), h, op.constraint_name is not None])
             elif op.constraint_type == "unique":
-                out.append(["drop_cons", un(op.table_name, "t"), False, un(op.constraint_name, "k")])
+                out.append(["drop_cons", tcode(op.table_name, op.schema), False, un(op.constraint_name, "k")])
             else:
                 raise AssertionError("drop of a %r constraint" % (op.constraint_type,))
         else:
@@ -300,12 +327,14 @@ def abs_ops(upgrade_ops, dialect, conn_schema=None, meta_schema=None):
 
 
 # ----------------------------------------------------------------------------- running the real code
-def compare(conn, md, cfg, include_object=None, include_name=None, batch=False):
+def compare(conn, md, cfg, include_object=None, include_name=None, batch=False, include_schemas=False):
     """produce_migrations against the connection (compare_metadata is this plus .as_diffs())"""
     from alembic.runtime.migration import MigrationContext
     from alembic.autogenerate import produce_migrations
     opts = {"compare_type": bool(cfg[0]), "compare_server_default": bool(cfg[1]), "target_metadata": md,
             "render_as_batch": batch}
+    if include_schemas:
+        opts["include_schemas"] = True
     if include_object is not None:
         opts["include_object"] = include_object
     if include_name is not None:
@@ -314,9 +343,15 @@ def compare(conn, md, cfg, include_object=None, include_name=None, batch=False):
     return ctx, produce_migrations(ctx, md)
 
 
-def fresh_db(schema):
+def fresh_db(schema, attached=()):
     import sqlalchemy as sa
+    from sqlalchemy import event
     e = sa.create_engine("sqlite://")
+    if attached:
+        @event.listens_for(e, "connect")
+        def _attach(dbapi_conn, rec):
+            for i in attached:
+                dbapi_conn.execute("ATTACH DATABASE ':memory:' AS s%d" % i)
     build_metadata(schema).create_all(e)
     return e
 
@@ -362,8 +397,9 @@ def q_cons(k):
     return "(Ix %d %s %s)" % (k[1], cf.nlist(k[2]), cf.boolean(k[3]))
 
 
-def q_table(t): return "(mkTable %d %s %s %s)" % (t["name"], cf.lst(q_col(c) for c in t["cols"]), cf.lst(q_cons(k) for k in t["cons"]),
-                                                 cf.lst(q_fk(f) for f in t.get("fks", [])))
+def q_uuq(u): return "(mkUuq %d %s)" % (u[0], cf.nlist(u[1]))
+def q_table(t): return "(mkTable %d %s %s %s %s)" % (t["name"], cf.lst(q_col(c) for c in t["cols"]), cf.lst(q_cons(k) for k in t["cons"]),
+                                                    cf.lst(q_fk(f) for f in t.get("fks", [])), cf.lst(q_uuq(u) for u in t.get("uuqs", [])))
 def q_schema(s): return cf.lst(q_table(t) for t in s)
 
 
@@ -377,6 +413,7 @@ def q_op(o):
         return "(OpAlterColumn %d %d %s %s %s %s %s %s)" % (o[1], o[2], cf.boolean(o[3]), q_ty(*o[4]), cf.opt(o[5], q_dflt),
                                                           cf.opt(o[6], cf.boolean), cf.opt(o[7], lambda t: q_ty(*t)),
                                                           cf.opt(o[8], lambda d: cf.opt(d[0], q_dflt)))
+    if k == "add_uuq": return "(OpAddUUq %d %s)" % (o[1], q_uuq(o[2]))
     if k == "add_fk": return "(OpAddFk %d %s)" % (o[1], q_fk(o[2]))
     if k == "drop_fk": return "(OpDropFk %d %d %s)" % (o[1], o[2], cf.boolean(o[3] if len(o) > 3 else True))
     if k == "add_cons": return "(OpAddCons %d %s)" % (o[1], q_cons(o[2]))
@@ -841,6 +878,20 @@ def add_computed(rnd, S, p=0.5):
             fam = rnd.choice([0, 1, 5])
             nl = rnd.random() < 0.6
             t["cols"].append([n, fam, [], nl, False, list(rnd.choice(COMPUTED)), not (nl and rnd.random() < 0.5)])
+
+
+def decorate(rnd, S, p=0.5):
+    """give tables CHECK constraints and expression indexes (kept out of the Coq encoding): replaces any existing decoration"""
+    for t in S:
+        t.pop("deco", None)
+        if rnd.random() < p:
+            cols = [c[0] for c in t["cols"] if not (c[5] is not None and c[5][0] == "comp")]
+            d = {"checks": [], "eixs": []}
+            for j in range(rnd.choice([0, 1, 1, 2])):
+                d["checks"].append([t["name"] * 10 + j, "%s %s %d" % (cn(rnd.choice(cols)), rnd.choice([">", "<", "<>"]), rnd.randint(0, 9))])
+            for j in range(rnd.choice([0, 1, 1, 2])):
+                d["eixs"].append([t["name"] * 10 + j, rnd.choice(["func", "text"]), rnd.choice(cols)])
+            t["deco"] = d
 
 
 def type_matrix(same_family_too):
